@@ -31,11 +31,13 @@ def detect_fixes(repo):
     i_del = srv.find("delete(conn.reqs, req.Tc.Tag)")
     order = 0 <= i_enq < i_del
     chain = "flushnext" in srv
-    return {"FixFallthrough": fallthrough, "FixStale": stale, "FixClose": close, "FixOrder": order, "FixChain": chain}
+    boundfix = "func (fid *SrvFid) bind()" in srv
+    return {"FixFallthrough": fallthrough, "FixStale": stale, "FixClose": close, "FixOrder": order, "FixChain": chain,
+            "FixBound": boundfix}
 
 
 BASE = dict(NReq=2, Tags={1, 2}, Fids={1}, Kinds={"Stat", "Flush"}, FixFallthrough=False, FixStale=False,
-            FixClose=False, FixOrder=False, FixChain=False, SharedTags=False, HasFlushOp=False, Extra=False, Late=False, PoolCap=4, Maxpend=0,
+            FixClose=False, FixOrder=False, FixChain=False, FixBound=False, SharedTags=False, HasFlushOp=False, Extra=False, Late=False, PoolCap=4, Maxpend=0,
             InitFids={1}, CanClose=False, Held=set())
 
 
